@@ -279,3 +279,12 @@ package transport
 // ---- C07 / C16: the read lock of the transport is released on every way out of the function that took it - a read
 // that fails (the peer is gone) must not leave it held, or the next read and a graceful Close block for ever
 //@ released [C07 C16] Transport.implLock
+
+// ---- C16 / C07: closing the system transport closes the pty AND kills the ssh process. The pty master is in blocking
+// mode, so a read parked in it is not interrupted by closing the file; it returns only when the child is gone (EIO).
+// Killing is what guarantees that - a signal the child may handle or ignore does not.
+//@ func (*System).Close [C16 C07]
+//@   nosafety
+//@   at call! Close#1 assert #the-pty-is-closed recv == old(t.fd)
+//@   at call! Kill#1 assert #the-ssh-process-is-killed-not-asked-to-leave recv == t.c.Process
+//@   at return assert #the-transport-is-no-longer-alive t.fd == nil
